@@ -50,6 +50,14 @@ CHECKS = {
          "Held on every explored node: at every node (elements, attribute nodes, namespace nodes, leaves) of trees with arbitrary declaration layouts the in-scope set, namespace_for_prefix / is_prefix_defined for 8 prefixes, prefix_for_namespace for 7 namespaces, unresolved_namespaces, inherited_prefixes and the qualified names from node_name_ref / name_ref / full_name are compared with a nearest-declaration-wins walk over the abstract tree; exploration, not proof.",
          "unresolved_namespaces / inherited_prefixes only as pinned down in DESIGN §5 C09; one open finding (no-namespace element under a default binding) suppressed by exact signature.",
          "reference-model monitor (namespace scope) at every node"),
+ "C10": ("DESIGN.md §5 C10",
+         "Held on every explored tree / history: every Ok serialisation (documents, fragments, inner elements, parentless clones of trees with arbitrary declared / undeclared namespaces) is read by an independent XML reader and every element and attribute name must resolve to the node's expanded name; histories of edits alternating with create_missing_prefixes must leave content, handles and existing declarations untouched and make the target serialise, mean the same and reparse deep-equal, round after round; exploration, not proof.",
+         "Plain text content so that only namespace aspects vary; one open finding (no-namespace element under a default binding) suppressed by exact signature.",
+         "independent reader of the emitted text + before/after read-back"),
+ "C15": ("DESIGN.md §5 C15",
+         "Held on every explored tree: after deduplicate_namespaces on trees with redundant / shadowing declaration layouts names, attributes, content and handles are unchanged, each declaration list is a subsequence of the old one, a tree that serialised before still serialises to text meaning the same (independent reader), and a second call changes nothing; exploration, not proof.",
+         "The serialisation clause is not judged on trees that already contain the open finding's trigger (no-namespace element under a default binding).",
+         "before/after read-back + independent reader"),
  "C11": ("DESIGN.md §5 C11",
          "Held on every explored update history: after every one of 1-40 map-style / node-style updates every accessor of the read-only and the mutable view of the attribute and namespace maps of two sibling elements is compared with an ordered-map model, return values included, and the serialised start tags are read back by an independent XML reader; exploration, not proof.",
          "Key pools of 4 names / 4 prefixes; histories <= 40 steps.",
